@@ -282,6 +282,10 @@ fn main() {
         "{} {}: {} cases, {} distinct non-trivial, {} violations, {:.1}s",
         prop.id, tier, evaluations, distinct, nviol, wall
     );
+    if tfcheck::fcommon::ORACLE_FAULT.load(std::sync::atomic::Ordering::SeqCst) {
+        println!("ORACLE-FAULT: the 384-bit and 512-bit references disagreed; this run is inconclusive");
+        std::process::exit(2);
+    }
     std::process::exit(if nviol > 0 { 1 } else { 0 });
 }
 
